@@ -394,6 +394,15 @@ pub fn run(ctx: &Ctx) -> (Report, PropertyMeta) {
             }
             cases.push(RrCase { kind, initial_peers: n, msgs: vec![m(&[5]), m(&[0, 300])], ops: ops.clone(), empty_identity: 0 });
             cases.push(RrCase { kind, initial_peers: n, msgs: vec![m(&[5]), m(&[0, 300])], ops, empty_identity: 0xFF });
+            // a long run: behaviour that depends on how many sends went before
+            if n == 3 {
+                let mut ops = vec![];
+                for i in 0..150 {
+                    ops.push(Op::Send(i % 2));
+                    ops.push(Op::Settle);
+                }
+                cases.push(RrCase { kind, initial_peers: n, msgs: vec![m(&[5]), m(&[0, 30])], ops, empty_identity: 0 });
+            }
             for join_after in 0..=(n + 1) {
                 let mut ops = vec![];
                 for i in 0..(3 * n + 4) {
